@@ -534,6 +534,15 @@ impl Sys {
                 let r = cm.ca_sync_parent(&h(ca), 0, &ParentHandle::from_str(parent).unwrap(), actor, krill)?;
                 Ok(format!("ok:{r}"))
             }
+            // C02 convergence oracle: the last step of `settle <child> <parent>` - ONE further
+            // `ca_sync_parent` after the rounds that `exec_expanded` ran as ordinary `sync` / `pump`
+            // lines.  A failing sync is an observation here (`ok:err:<Kind>`), not an op failure.
+            ["settle", ca, parent] => {
+                match cm.ca_sync_parent(&h(ca), 0, &ParentHandle::from_str(parent).unwrap(), actor, krill) {
+                    Ok(r) => Ok(format!("ok:{r}")),
+                    Err(e) => Ok(format!("ok:err:{}", err_kind(&e))),
+                }
+            }
             ["tasync"] => {
                 cm.sync_ta_proxy_signer_if_possible(rt)?;
                 Ok("ok".into())
@@ -732,6 +741,28 @@ impl Sys {
                 Ok(format!("ok:{}", if r.is_some() { "later" } else { "done" }))
             }
             _ => panic!("unknown op {:?}", w),
+        }
+    }
+
+    /// Number of rounds of `settle` (the convergence theorems of C02 say 2-3 suffice).
+    pub const SETTLE_ROUNDS: usize = 4;
+
+    /// `exec` with the composite op `settle <child> <parent>` written out as trace lines of its
+    /// own: `SETTLE_ROUNDS` times `sync <child> <parent>` + `pump`, then the `settle` line itself
+    /// (one further sync; its observation is what the drivers judge convergence and idempotence
+    /// on).  Every other op is one line.
+    pub fn exec_expanded(&mut self, op: &str) -> Vec<(String, String)> {
+        let w: Vec<&str> = op.split_whitespace().collect();
+        if let ["settle", ca, parent] = w[..] {
+            let mut out = vec![];
+            for _ in 0..Self::SETTLE_ROUNDS {
+                out.push(self.exec(&format!("sync {ca} {parent}")));
+                out.push(self.exec("pump"));
+            }
+            out.push(self.exec(op));
+            out
+        } else {
+            vec![self.exec(op)]
         }
     }
 
